@@ -14,6 +14,7 @@ import time
 from fractions import Fraction
 
 from harness import common as C
+from harness import history as H
 from harness import impl, trees
 from harness.translate import t6_options
 
@@ -879,6 +880,39 @@ def run(tier, seed, replay=None):
                               f"{name} = {v!r} but the density (model/M_bdsk.v, interval run) is {mid!r} "
                               f"[{c['scenario']}, m={c['m']}, n={c['n']}]",
                               dict(case=c, impl=v, model=mid, api=name))
+    # ---- same-object histories: the JSON-built skyline model evaluated, parameters assigned (rates, origin, rho,
+    #      boundaries, removal probability), evaluated again — also twice in a row without any assignment — and
+    #      compared with a freshly built model holding the same values
+    t0 = time.time()
+    impl.load()
+    from torchtree.evolution.bdsk import BDSKModel
+    hrng = random.Random(seed + 31)
+    nhist, hist_found = 0, {}
+    pool = [c for c in cases if c["api"] == "BDSK" and isinstance(out.get(id(c)), float) and math.isfinite(out[id(c)])]
+    hrng.shuffle(pool)
+    for c in pool[:(60 if tier == "quick" else 400)]:
+        try:
+            obj = H.tracked(BDSKModel, bdsk_json(c))
+            a, b = float(obj().detach().reshape(-1)[0]), float(obj().detach().reshape(-1)[0])
+            if a != b:
+                k = "C09:history:evaluated-twice"
+                hist_found.setdefault(k, (k, f"the same BDSKModel evaluated twice in a row returns {a!r} then {b!r} "
+                                             f"[{c['scenario']}, root edge = {c['root_edge']}]", dict(case=c)))
+            # the tree's heights and the boundaries are left alone (their order constraints do not survive a
+            # generic perturbation)
+            fs = H.run(obj, lambda o: o().detach().reshape(-1).tolist(), hrng, steps=2,
+                       frozen=("internal_heights", "times"))
+        except Exception:      # noqa
+            continue
+        nhist += 1
+        for f in fs:
+            k = f"C09:history:BDSKModel:{'root-edge' if c['root_edge'] else 'absolute-origin'}"
+            hist_found.setdefault(k, (k, f"after the history {f['history']} (assigned: {f['assigned']}) the same model "
+                                         f"returns {f['on_same_object']} but a freshly built one {f['fresh_object']} "
+                                         f"[{c['scenario']}]", dict(case=c, history=f)))
+    for f in hist_found.values():
+        rep.violation(*f)
+    rep.timings["histories"] = round(time.time() - t0, 2)
     rep.rule = ("random time trees n=2..12 (random/caterpillar/balanced, serial or contemporaneous, heights generic "
                 "doubles or on a dyadic grid), 1..8 epochs, scenarios: plain / boundary exactly on a node time / on a "
                 "tip time (with and without rho there) / rho at internal boundaries / rho-tips at several boundaries / "
@@ -888,7 +922,7 @@ def run(tier, seed, replay=None):
                 "again with one epoch cut in two; non-trivial = n>=3 or m>=2; distinct = distinct configuration")
     rep.exhaustive = dict(json_option_pairs=sum(len(e["options"]) for e in table.values()) if table else 0,
                           constructor_parameters_probed=n_opts)
-    rep.extra = dict(input_distribution=dist, model_undefined=undefined,
+    rep.extra = dict(input_distribution=dist, model_undefined=undefined, same_object_histories=nhist,
                      traces_validated_against_impl=compared,
                      direct_checks=stats, hazard_classes="see known_findings.d/C09.json",
                      translator_units=["BDSKModel.from_json/__init__ -> gen/G_options.v",
